@@ -236,7 +236,42 @@ func runLookupConsumers(p *Prog, r *Report) {
 			}
 			return true
 		})
-		// single-variable form: found := result == LookupSuccessful || …  is covered above (any || expression)
+		// stand-alone tests `x == LookupSuccessful` (not part of a disjunction)
+		ast.Inspect(fn.Body, func(m ast.Node) bool {
+			be, ok := m.(*ast.BinaryExpr)
+			if !ok || be.Op != token.EQL {
+				return true
+			}
+			par := p.Parent(be)
+			for {
+				if pe, ok := par.(*ast.ParenExpr); ok {
+					par = p.Parent(pe)
+					continue
+				}
+				break
+			}
+			if pb, ok := par.(*ast.BinaryExpr); ok && pb.Op == token.LOR {
+				return true
+			}
+			isSucc := false
+			for _, side := range []ast.Expr{be.X, be.Y} {
+				if tv, ok := info.Types[side]; ok && tv.Value != nil && typeIs(tv.Type, "schemahelper", "LookupResult") && lastSel(side) == "LookupSuccessful" {
+					isSucc = true
+				}
+			}
+			if !isSucc {
+				return true
+			}
+			n++
+			construct := cmpText(be)
+			if why, ok := lookupConsumerExceptions[fn.Name+"|"+construct]; ok {
+				r.Add("E11.lookup-consumers", fn.Name, construct, p.Pos(be), Excepted, why, true)
+				return true
+			}
+			r.Add("E11.lookup-consumers", fn.Name, construct, p.Pos(be), Violated,
+				"accepts only LookupSuccessful: with an unresolved second level (LookupPartiallySuccessful) the first-level dependent body is in force for the other features but not here", true)
+			return true
+		})
 	}
 	r.Counts["E11.lookup-disjunctions"] = n
 	r.ExpectMin("E11.lookup-disjunctions", n, 4)
@@ -330,4 +365,9 @@ func runKeyCanonical(p *Prog, r *Report) {
 	r.Counts["E11.key-fields"] = n
 	r.ExpectMin("E11.key-fields", n, 2)
 	r.Clauses = append(r.Clauses, "E11 DependencyKeys.MarshalJSON sorts every slice field it marshals")
+}
+
+var lookupConsumerExceptions = map[string]string{
+	"decoder/internal/schemahelper.blockSchema.DependentBodySchema|nestedOk == LookupSuccessful": "the producer itself: a nested lookup that is not fully successful is what makes the overall result 'partially successful'",
+	"decoder.(*PathDecoder).decodeReferenceTargetsForBody|result == LookupSuccessful":           "the data type of a dependent-body-as-data target is only inferred from a completely resolved dependent body (reviewed: with a partial lookup the target is not typed, the block's nested targets are still collected through the merged schema)",
 }
